@@ -59,6 +59,10 @@ type c31URL struct {
 	Query   bool     `json:"q,omitempty"`
 	Frag    bool     `json:"fr,omitempty"`
 	Verdict string   `json:"v,omitempty"` // accept (default) | reject | echo
+	// Alias k+1: this entry has the SAME scheme, host and path as entry k and differs
+	// from it only in user info / query string / fragment (its own secrets). The
+	// scripted validator and the origin's answers are per ENTRY, i.e. per full URL.
+	Alias int `json:"al,omitempty"`
 	Answers []c31Ans `json:"a,omitempty"`
 }
 
@@ -299,7 +303,7 @@ func (e *c31Env) rawURL(id int) string {
 	if u.User {
 		s += c31Marker(e.variant, id, "U") + ":" + c31Marker(e.variant, id, "P") + "@"
 	}
-	s += host + "/u" + strconv.Itoa(id)
+	s += host + "/u" + strconv.Itoa(e.pathOf(id))
 	if u.Where == "invalid" {
 		s += "/%zz"
 	} else {
@@ -312,6 +316,14 @@ func (e *c31Env) rawURL(id int) string {
 		s += "#" + c31Marker(e.variant, id, "F")
 	}
 	return s
+}
+
+// pathOf is the entry whose path this entry shares (itself unless it is an alias).
+func (e *c31Env) pathOf(id int) int {
+	for n := 0; e.in.Site[id].Alias > 0 && n < len(e.in.Site); n++ {
+		id = e.in.Site[id].Alias - 1
+	}
+	return id
 }
 
 func c31PathID(p string) int {
@@ -329,24 +341,51 @@ func c31PathID(p string) int {
 	return n
 }
 
+// idOf identifies the site entry a URL text denotes: the FULL URL counts (scheme,
+// host, path, user info, query; the fragment where entries differ in it). -1 when
+// it is none of the site's URLs.
 func (e *c31Env) idOf(s string) int {
-	if len(e.raws) > 0 && s == e.raws[0] {
-		return 0
+	for i, r := range e.raws {
+		if s == r {
+			return i
+		}
 	}
 	u, err := url.Parse(s)
 	if err != nil {
 		return -1
 	}
-	id := c31PathID(u.EscapedPath())
-	if id < 0 || id >= len(e.in.Site) {
+	pid := c31PathID(u.EscapedPath())
+	if pid < 0 || pid >= len(e.in.Site) {
 		return -1
 	}
-	// the URL must be the site entry's: same scheme and host
-	scheme, host := e.hostOf(e.in.Site[id])
-	if u.Scheme != scheme || u.Host != host {
-		return -1
+	best := -1
+	for i, ent := range e.in.Site {
+		if ent.Where == "invalid" || e.pathOf(i) != pid {
+			continue
+		}
+		scheme, host := e.hostOf(ent)
+		wantQ, wantU := "", ""
+		if ent.Query {
+			wantQ = "tok=" + c31Marker(e.variant, i, "Q")
+		}
+		if ent.User {
+			wantU = c31Marker(e.variant, i, "U") + ":" + c31Marker(e.variant, i, "P")
+		}
+		gotU := ""
+		if u.User != nil {
+			gotU = u.User.String()
+		}
+		if u.Scheme != scheme || u.Host != host || u.RawQuery != wantQ || gotU != wantU {
+			continue
+		}
+		if ent.Frag && u.Fragment == c31Marker(e.variant, i, "F") {
+			return i
+		}
+		if !ent.Frag && best < 0 {
+			best = i // a fragment the client inherited from an earlier hop does not change which URL it is
+		}
 	}
-	return id
+	return best
 }
 
 func (e *c31Env) answer(id, att int) c31Ans {
@@ -376,9 +415,12 @@ func c31Handle(w http.ResponseWriter, r *http.Request) {
 		w.WriteHeader(500)
 		return
 	}
-	id := c31PathID(r.URL.Path)
+	// the transport wrapper says which site entry the client meant (entries can differ in
+	// the fragment only, which never reaches an origin); everything that does reach the
+	// origin must agree with it
+	id, ierr := strconv.Atoi(r.Header.Get("X-C31-Id"))
 	att, aerr := strconv.Atoi(r.Header.Get("X-C31-Att"))
-	if id < 0 || id >= len(e.in.Site) || aerr != nil {
+	if ierr != nil || id < 0 || id >= len(e.in.Site) || aerr != nil || c31PathID(r.URL.Path) != e.pathOf(id) {
 		e.note("origin: unexpected request " + r.URL.String())
 		w.WriteHeader(500)
 		return
@@ -388,7 +430,10 @@ func c31Handle(w http.ResponseWriter, r *http.Request) {
 		want = "tok=" + c31Marker(e.variant, id, "Q")
 	}
 	if r.URL.RawQuery != want {
-		e.note(fmt.Sprintf("origin: request for u%d carries query %q, want %q", id, r.URL.RawQuery, want))
+		e.note(fmt.Sprintf("origin: request for entry %d carries query %q, want %q", id, r.URL.RawQuery, want))
+	}
+	if user, _, hasAuth := r.BasicAuth(); e.in.Site[id].User != hasAuth || (hasAuth && user != c31Marker(e.variant, id, "U")) {
+		e.note(fmt.Sprintf("origin: request for entry %d carries user %q (present %v)", id, user, hasAuth))
 	}
 	e.mu.Lock()
 	e.origin = append(e.origin, id)
@@ -471,6 +516,7 @@ func (t *c31RT) RoundTrip(req *http.Request) (*http.Response, error) {
 	}
 	r2 := req.Clone(req.Context())
 	r2.Header.Set("X-C31-Att", strconv.Itoa(att))
+	r2.Header.Set("X-C31-Id", strconv.Itoa(id))
 	return t.base.RoundTrip(r2)
 }
 
@@ -833,6 +879,12 @@ func c31Run(in c31In) CaseOut {
 			answers = []string{"C31.AFail"}
 		}
 		tags["url:"+u.Where] = true
+		if u.Alias > 0 {
+			tags["site:same-path-other-query-or-userinfo"] = true
+			if u.Verdict != "" {
+				tags["site:rejected-look-alike-of-accepted-url"] = true
+			}
+		}
 		site[id] = App("C31.Build_site_url", c31Parts(envA.rawURL(id)), verdict, List(answers))
 	}
 	vk := map[string]string{"none": "C31.VNone", "script": "C31.VScript", "https": "C31.VHttps"}[in.VKind]
@@ -1013,6 +1065,57 @@ func c31Gen(r *rand.Rand, n int, tier string) []c31In {
 			add(in, "boundary-schemes")
 		}
 	}
+	// --- a validator whose verdict depends on the query string / user info / fragment: entries that
+	//     share scheme, host and path with an accepted hop but are themselves rejected ---
+	for _, diff := range []string{"query", "noquery", "addquery", "userinfo", "userinfo2", "fragment"} {
+		// mk builds (base, alias-of-base) differing in one component only
+		mk := func(baseIdx int) (c31URL, c31URL) {
+			b := c31URL{Where: "tls"}
+			a := c31URL{Where: "tls", Alias: baseIdx + 1}
+			switch diff {
+			case "query":
+				b.Query, a.Query = true, true
+			case "noquery":
+				b.Query = true
+			case "addquery":
+				a.Query = true
+			case "userinfo":
+				b.Query, a.Query = false, false
+				a.User = true
+			case "userinfo2":
+				b.User, a.User = true, true
+			case "fragment":
+				b.Frag, a.Frag = true, true
+			}
+			return b, a
+		}
+		for _, verdict := range []string{"reject", "echo", ""} {
+			// (1) within one chain: the pointer URL itself is the accepted look-alike
+			b, a := mk(0)
+			b.Answers = []c31Ans{c31Redirect(302, 1)}
+			a.Verdict, a.Answers = verdict, []c31Ans{c31BodyAns("id", 24, "")}
+			in := c31Base()
+			in.Site = []c31URL{b, a}
+			add(in, "boundary-alias-of-pointer")
+			// (2) only through retry history: attempt 1 is sent to the accepted URL and fails
+			//     transiently, attempt 2 is redirected to its rejected look-alike
+			b, a = mk(1)
+			b.Answers = []c31Ans{{Kind: "status", Code: 503}}
+			a.Verdict, a.Answers = verdict, []c31Ans{c31BodyAns("id", 24, "")}
+			in = c31Base()
+			in.Retries = 2
+			in.Site = []c31URL{{Where: "plain", Query: true, Answers: []c31Ans{c31Redirect(307, 1), c31Redirect(307, 2), c31Redirect(307, 2)}}, b, a}
+			add(in, "boundary-alias-via-retry")
+			// (3) two hops later: pointer -> elsewhere -> look-alike of the pointer
+			b, a = mk(0)
+			b.Answers = []c31Ans{c31Redirect(301, 1)}
+			a.Verdict, a.Answers = verdict, []c31Ans{c31BodyAns("id", 24, "")}
+			in = c31Base()
+			in.Site = []c31URL{b, {Where: "plain", User: true, Answers: []c31Ans{c31Redirect(303, 2)}}, a}
+			in.Site[2].Alias = 1
+			add(in, "boundary-alias-two-hops-later")
+		}
+	}
 	// --- final answers of every kind ---
 	for _, a := range []c31Ans{{Kind: "status", Code: 404}, {Kind: "status", Code: 204}, {Kind: "status", Code: 206}, {Kind: "status", Code: 302}, {Kind: "status", Code: 304},
 		{Kind: "status", Code: 300}, {Kind: "badloc", Code: 302}, {Kind: "reset"}, {Kind: "status", Code: 500}} {
@@ -1182,13 +1285,55 @@ func c31Random(r *rand.Rand) c31In {
 		}
 		in.Site = append(in.Site, u)
 	}
-	// relative Location only where it denotes the same URL: same server, target without user info
+	// aliases: entries that share scheme, host and path with an earlier entry and differ in
+	// query / user info only; the validator's verdict and the origin's answers are per entry
+	if nURL > 1 && r.Intn(3) == 0 {
+		live := func(u c31URL) bool { return u.Where == "tls" || u.Where == "plain" }
+		for i := 1; i < nURL; i++ {
+			j := r.Intn(i)
+			if r.Intn(2) == 0 || !live(in.Site[i]) || !live(in.Site[j]) || in.Site[j].Alias > 0 {
+				continue
+			}
+			in.Site[i].Alias, in.Site[i].Where, in.Site[i].Frag = j+1, in.Site[j].Where, false
+			if !in.Site[i].Query && !in.Site[i].User {
+				in.Site[i].Query = true
+			}
+			in.Site[i].Verdict = []string{"", "reject", "reject", "echo"}[r.Intn(4)]
+			if in.VKind == "https" {
+				in.VKind = "script"
+			}
+			// make the alias reachable: some answer of its base, or of the pointer, redirects to it
+			from := []int{j, 0}[r.Intn(2)]
+			if from != i {
+				k := r.Intn(len(in.Site[from].Answers))
+				in.Site[from].Answers[k] = c31Ans{Kind: "redirect", Code: c31Codes[r.Intn(5)], To: i}
+			}
+			in.Note = "random-alias"
+		}
+	}
+	group := map[int]int{}
+	for i := range in.Site {
+		p := i
+		if in.Site[i].Alias > 0 {
+			p = in.Site[i].Alias - 1
+		}
+		group[p]++
+	}
+	shared := func(i int) bool {
+		p := i
+		if in.Site[i].Alias > 0 {
+			p = in.Site[i].Alias - 1
+		}
+		return group[p] > 1
+	}
+	// relative Location only where it denotes the same URL: same server, target without user info,
+	// and a path no other entry shares
 	for i := range in.Site {
 		for j := range in.Site[i].Answers {
 			a := &in.Site[i].Answers[j]
 			if a.Kind == "redirect" {
 				t := in.Site[a.To]
-				if t.Where == in.Site[i].Where && !t.User && !in.Site[i].User && !t.Frag && !in.Site[i].Frag && r.Intn(2) == 0 {
+				if t.Where == in.Site[i].Where && !t.User && !in.Site[i].User && !t.Frag && !in.Site[i].Frag && !shared(a.To) && !shared(i) && r.Intn(2) == 0 {
 					a.Rel = true
 				}
 			}
@@ -1222,11 +1367,13 @@ func c31Random(r *rand.Rand) c31In {
 		}
 	}
 	in.NoAuto = r.Intn(4) == 0
-	in.Note = "random"
+	if in.Note == "" {
+		in.Note = "random"
+	}
 	return in
 }
 
 func init() {
-	Register("C31", "boundary grid first (redaction over every URL shape; retry / redirect / cap clamps at their boundaries; redirect chains of length cap-1, cap, cap+1 and loops; a rejected URL at every position of a chain, scripted and HTTPSOnlyValidator, cross-scheme, dead host, foreign scheme, unparseable URL; every final answer kind; bodies at cap-1, cap, cap+1 with Content-Length, chunked, truncated; zstd one-shot / streamed / corrupt around both caps; gzip with and without transparent decoding), then random sites of 1..6 URLs with per-attempt scripted answers; every case is run twice with different secrets; non-trivial = at least one validator call or request happened; distinct = distinct input JSON",
+	Register("C31", "boundary grid first (redaction over every URL shape; retry / redirect / cap clamps at their boundaries; redirect chains of length cap-1, cap, cap+1 and loops; a rejected URL at every position of a chain, scripted and HTTPSOnlyValidator; validators keyed on the FULL URL: a rejected URL sharing scheme/host/path with an accepted hop and differing only in query, user info or fragment, reached in one chain, two hops later, or only on a retry; cross-scheme, dead host, foreign scheme, unparseable URL; every final answer kind; bodies at cap-1, cap, cap+1 with Content-Length, chunked, truncated; zstd one-shot / streamed / corrupt around both caps; gzip with and without transparent decoding), then random sites of 1..6 URLs with per-attempt scripted answers; every case is run twice with different secrets; non-trivial = at least one validator call or request happened; distinct = distinct input JSON",
 		c31Gen, c31Run)
 }
